@@ -47,6 +47,13 @@ def obligations(tier):
     # a member swapped for one of the same name that reads another input (remove_indicator + add_indicator)
     for name, kw, n in (("MACD", dict(fast_period=2, slow_period=3, signal_period=2), 7), ("ROC", dict(period=2), 5), ("TSI", dict(period=2, smooth_period=2), 6)):
         obs.append(Ob(f"swap-input/{name}{kw}/close->open/n={n}", dict(spec=["ind", name, kw], n=n, input="open"), NL, fn="run_swap", weight=n * 3, budget_s=300))
+    # a fast and a slow instance of one class side by side in a Hexital: each follows its own definition
+    for name, kw, sib, n in (("STOCH", dict(period=3, slow_period=2, smoothing_k=2), dict(period=2, slow_period=2, smoothing_k=2), 7), ("STOCH", dict(period=2, slow_period=2, smoothing_k=2), dict(period=2, slow_period=3, smoothing_k=1), 6),
+                             ("RSI", dict(period=3), dict(period=2), 5), ("MACD", dict(fast_period=2, slow_period=3, signal_period=2), dict(fast_period=2, slow_period=4, signal_period=2), 7),
+                             ("MACD", dict(fast_period=2, slow_period=3, signal_period=2), dict(fast_period=2, slow_period=3, signal_period=3), 7), ("TSI", dict(period=3, smooth_period=2), dict(period=2, smooth_period=2), 6),
+                             ("ROC", dict(period=3), dict(period=2), 6), ("aroon", dict(period=3), dict(period=2), 5)):
+        for feed in ("batch", "append"):
+            obs.append(Ob(f"sibling/{name}{kw} next to {sib}/{feed}/n={n}", dict(spec=["ind", name, kw], sibling=sib, n=n, feed=feed), NL, fn="run_sibling", weight=n * 5, budget_s=300))
     return obs
 
 
